@@ -198,6 +198,8 @@ class Reporter {
     WriteAll(out_fd_, line);
   }
 
+  int64_t violations() const { return viol_; }
+
   void flush() {
     std::string s = "{\"t\":\"sum\",\"cases\":" + std::to_string(cases_) +
                     ",\"held\":" + std::to_string(held_) + ",\"nontrivial\":" +
@@ -489,6 +491,11 @@ inline int RunHarness(int argc, char **argv, const char *default_prop, CaseFn fn
       setitimer(ITIMER_PROF, &it, nullptr);
       rep.case_done();
       if ((p - from) % 512 == 511) rep.flush();
+      if (rep.violations() >= a.GetInt("max-violations", 1 << 30)) {
+        // Enough evidence from this shard (each violation is already reported with its replay).
+        Reporter::WriteAll(out_fd, "{\"t\":\"stopped\",\"why\":\"max-violations reached\",\"at\":" + std::to_string(p + 1) + ",\"of\":" + std::to_string(to) + "}\n");
+        break;
+      }
     }
     rep.flush();
     {
@@ -510,8 +517,15 @@ inline int RunHarness(int argc, char **argv, const char *default_prop, CaseFn fn
   }
 
   size_t pos = 0;
-  int64_t deaths = 0;
+  int64_t deaths = 0, abnormal = 0;  // abnormal: deaths + watchdog firings (each is reported on its own)
+  const int64_t max_abnormal = a.GetInt("max-deaths", 1 << 30);
   while (pos < ks.size()) {
+    if (abnormal >= max_abnormal) {
+      // Enough evidence from this shard: every abnormal ending is already reported; a tree that dies or stalls on
+      // every case would otherwise cost a worker restart, a sanitizer report or a full watchdog budget per case.
+      Reporter::WriteAll(out_fd, "{\"t\":\"stopped\",\"why\":\"max-deaths reached\",\"at\":" + std::to_string(pos) + ",\"of\":" + std::to_string(ks.size()) + "}\n");
+      break;
+    }
     shm->cur_case = -1;
     shm->next_pos = pos;
     shm->timed_out = 0;
@@ -537,6 +551,7 @@ inline int RunHarness(int argc, char **argv, const char *default_prop, CaseFn fn
       return 2;
     }
     bool timeout = WIFEXITED(st) && WEXITSTATUS(st) == 97;
+    ++abnormal;
     if (timeout) {
       // Re-run once with 4x budget in a fresh worker.
       shm->timed_out = 0;
